@@ -2695,7 +2695,8 @@ int KSI_ExtendResp_verifyWithRequest(const KSI_ExtendResp *resp, const KSI_Exten
 		goto cleanup;
 	}
 
-	if (!KSI_Integer_equalsUInt(resp->status, 0)) {
+	/* A response without a status element is not an error response: the rest of it has to match the request all the same. */
+	if (resp->status != NULL && !KSI_Integer_equalsUInt(resp->status, 0)) {
 		KSI_pushError(resp->ctx, res = KSI_convertExtenderStatusCode(resp->status), KSI_Utf8String_cstr(resp->errorMsg));
 		goto cleanup;
 	}
